@@ -93,24 +93,29 @@ func RunIndex(c *core.Ctx) {
 		entries[i] = idxEntry{id: r.UUIDMaybeUpper(), v: r.Value(prof)}
 	}
 	field := gen.Pick(r, []string{"f", "x", "n.a", "é"})
+	// the length of the key prefix matters to code that builds both bound keys from one buffer
+	coll := "c" + "ollection-name-of-some-length-0123456789"[:r.Intn(41)]
+	if r.Bool() {
+		field += "_" + "field-name-of-some-length-0123456789"[:r.Intn(30)]
+	}
 
 	tx, err := st.Begin(true)
 	if err != nil {
 		c.Violate("index:begin", "begin: %v", err)
 		return
 	}
-	idx := index.CreateIndex("c", field, index.SingleField, tx).(index.RangeIndex)
+	idx := index.CreateIndex(coll, field, index.SingleField, tx).(index.RangeIndex)
 	// neighbours that must never leak into the scans: a field name extending ours, another collection, document keys
-	sib := index.CreateIndex("c", field+"y", index.SingleField, tx)
-	sib2 := index.CreateIndex("c", field+".y", index.SingleField, tx)
-	other := index.CreateIndex("cc", field, index.SingleField, tx)
+	sib := index.CreateIndex(coll, field+"y", index.SingleField, tx)
+	sib2 := index.CreateIndex(coll, field+".y", index.SingleField, tx)
+	other := index.CreateIndex(coll+"c", field, index.SingleField, tx)
 	for i := 0; i < 5; i++ {
 		sib.Add(r.UUID(), r.Value(prof), -1)
 		sib2.Add(r.UUID(), r.Value(prof), -1)
 		other.Add(r.UUID(), r.Value(prof), -1)
 	}
-	tx.Set([]byte("c:c;d:"+r.UUID()), []byte("doc"))
-	tx.Set([]byte("coll:c"), []byte("{}"))
+	tx.Set([]byte("c:"+coll+";d:"+r.UUID()), []byte("doc"))
+	tx.Set([]byte("coll:"+coll), []byte("{}"))
 	for _, e := range entries {
 		if err := idx.Add(e.id, model.DeepCopy(e.v), time.Duration(-1)); err != nil {
 			c.Violate("index:add-error", "Add(%s): %v", model.Render(e.v), err)
@@ -174,10 +179,15 @@ func RunIndex(c *core.Ctx) {
 					if !rangeInDomain(a) || !rangeInDomain(bb) {
 						continue
 					}
+					ac, bc := *a, *bb // the oracle works on copies taken before the call
 					in := a.Intersect(bb)
+					if rangeStr(a) != rangeStr(&ac) || a.StartIncluded != ac.StartIncluded || a.EndIncluded != ac.EndIncluded || rangeStr(bb) != rangeStr(&bc) {
+						c.Violate("range:intersect-mutates-operand", "Intersect changed one of its operands: %s ∩ %s left them as %s and %s (a range used twice then excludes common values)", rangeStr(&ac), rangeStr(&bc), rangeStr(a), rangeStr(bb))
+						return false
+					}
 					e := &model.Eval{}
 					for _, v := range bounds {
-						if rangeContains(e, a, v) && rangeContains(e, bb, v) && !e.Unspec {
+						if rangeContains(e, &ac, v) && rangeContains(e, &bc, v) && !e.Unspec {
 							if !in.IsEmpty() {
 								if !rangeContains(e, in, v) {
 									c.Violate("range:intersect-excludes", "%s ∩ %s = %s excludes %s which both operands contain", rangeStr(a), rangeStr(bb), rangeStr(in), model.Render(v))
@@ -279,11 +289,18 @@ func RunIndex(c *core.Ctx) {
 			if !rangeInDomain(r2) {
 				continue
 			}
+			rgc, r2c := *rg, *r2
 			in := rg.Intersect(r2)
+			// the same receiver is used again: a receiver narrowed in place gives a wrong second answer
+			in2 := rg.Intersect(r2)
+			if rangeStr(in) != rangeStr(in2) || rangeStr(rg) != rangeStr(&rgc) || rangeStr(r2) != rangeStr(&r2c) {
+				c.Violate("range:intersect-mutates-operand", "Intersect is not repeatable / changed its operands: %s ∩ %s = %s, then %s; operands now %s and %s", rangeStr(&rgc), rangeStr(&r2c), rangeStr(in), rangeStr(in2), rangeStr(rg), rangeStr(r2))
+				return false
+			}
 			e := &model.Eval{}
 			want := map[string]bool{}
 			for _, en := range entries {
-				if rangeContains(e, rg, en.v) && rangeContains(e, r2, en.v) {
+				if rangeContains(e, &rgc, en.v) && rangeContains(e, &r2c, en.v) {
 					want[en.id] = true
 				}
 			}
@@ -330,7 +347,7 @@ func RunIndex(c *core.Ctx) {
 		return
 	}
 	defer rtx.Rollback()
-	if !check(index.CreateIndex("c", field, index.SingleField, rtx).(index.RangeIndex)) {
+	if !check(index.CreateIndex(coll, field, index.SingleField, rtx).(index.RangeIndex)) {
 		return
 	}
 	c.Sample(map[string]any{"backend": backend, "entries": n, "field": field, "profile_kind": prof.Kind})
